@@ -90,6 +90,18 @@ Fixpoint settle (fuel : nat) (nt : net) (T : nat) (s : state) : sres :=
            end
   end.
 
+(* the same with the opposite priority among enabled internal actions: used to DETECT order sensitivity case by
+   case (Play.v stops a scenario whose two settlings show different snapshots) *)
+Fixpoint settle_rev (fuel : nat) (nt : net) (T : nat) (s : state) : sres :=
+  match fuel with
+  | O => SFuel
+  | S f => match first_enabled nt T s (rev (candidates nt s)) with
+           | None => SOk s
+           | Some (Ok s') => settle_rev f nt T s'
+           | Some _ => SPanic
+           end
+  end.
+
 (* ------------------------------------------------------------------ snapshot *)
 Fixpoint insert_item (x : item) (l : list item) : list item :=
   match l with
